@@ -407,20 +407,28 @@ theorem takeWhile_eq_self {α} (p : α → Bool) (l : List α) (h : ∀ a ∈ l,
     rw [List.takeWhile_cons_of_pos (h a (List.mem_cons_self ..)),
       ih (fun x hx => h x (List.mem_cons_of_mem _ hx))]
 
-theorem urlsplitPathChars_of_quoteChars (cs : List Char) (h : ∀ c ∈ cs, isQuoteChar c = true) :
+/-- the text starts with `//` (what `urlsplit` reads as the start of an authority) -/
+def startsDoubleSlash : List Char → Bool
+  | '/' :: '/' :: _ => true
+  | _ => false
+
+theorem dropNetloc_of_not_double (cs : List Char) (h : startsDoubleSlash cs = false) : dropNetloc cs = cs := by
+  unfold dropNetloc
+  split
+  · simp [startsDoubleSlash] at h
+  · rfl
+
+theorem urlsplitPathChars_of_quoteChars (cs : List Char) (h : ∀ c ∈ cs, isQuoteChar c = true)
+    (h2 : startsDoubleSlash cs = false) :
     urlsplitPathChars cs = cs := by
   unfold urlsplitPathChars
   simp only [cleanUrl_of_quoteChars cs h]
   rw [schemePrefix_of_no_colon _ (fun hc => (isQuoteChar_ne (h _ hc)).2.2.2.1 rfl)]
-  simp only [cutQueryFragment]
+  simp only [cutQueryFragment, dropNetloc_of_not_double cs h2]
   apply takeWhile_eq_self
   intro c hc
   have := isQuoteChar_ne (h c hc)
   simp [this]
-
-/-- `urlsplit(quote(s)).path == quote(s)`: nothing of a quoted path is cut off as query/fragment. -/
-theorem urlsplit_path_quote (s : String) : urlsplit_path (quote s) = quote s := by
-  rw [urlsplit_path, urlsplitPathChars_of_quoteChars _ (quote_safe_chars s), String.ofList_toList]
 
 /-! ## `urljoin` of a clean collection path and a quoted name -/
 
@@ -746,5 +754,99 @@ example : has_scheme "é:b" = false := by decide
 example : has_scheme "/a:b" = false := by decide
 example : unquoteBytes [37, 52, 49, 37, 122, 122, 37] = [65, 37, 122, 122, 37] := by
   simp [unquoteBytes, hexVal]
+
+/-! `quote` keeps a leading `//` and creates none -/
+
+theorem byteChar_slash_fin : ∀ n : Fin 256, Char.ofNat n.val = '/' → n.val = 47 := by decide +kernel
+
+theorem byteChar_eq_slash (b : UInt8) (h : byteChar b = '/') : b = 47 := by
+  have := byteChar_slash_fin ⟨b.toNat, UInt8.toNat_lt b⟩ h
+  exact UInt8.toNat_inj.mp (by simpa using this)
+
+theorem utf8EncodeChar_ne_nil (c : Char) : String.utf8EncodeChar c ≠ [] := by
+  unfold String.utf8EncodeChar
+  dsimp only
+  split
+  · simp
+  · split
+    · simp
+    · split <;> simp
+
+/-- the quoted form of one character -/
+def quoteChar1 (c : Char) : List Char := ((String.utf8EncodeChar c).flatMap (quoteByte true)).map byteChar
+
+theorem quoteChar1_slash : quoteChar1 '/' = ['/'] := by decide
+
+theorem quoteChar1_head (c : Char) : ∃ x rest, quoteChar1 c = x :: rest ∧ (x = '/' → c = '/') := by
+  unfold quoteChar1
+  cases hb : String.utf8EncodeChar c with
+  | nil => exact absurd hb (utf8EncodeChar_ne_nil c)
+  | cons b0 bs =>
+    simp only [List.flatMap_cons, List.map_append]
+    unfold quoteByte
+    split
+    · refine ⟨byteChar b0, _, rfl, ?_⟩
+      intro hx
+      have := byteChar_eq_slash b0 hx
+      subst this
+      exact slash_of_mem_utf8EncodeChar c (by rw [hb]; simp)
+    · refine ⟨byteChar 37, _, rfl, ?_⟩
+      intro hx
+      exact absurd hx (by decide)
+
+theorem toList_quote_eq (s : String) : (quote s).toList = s.toList.flatMap quoteChar1 := by
+  rw [quote, toList_quoteWith, strBytes_eq, quoteBytesWith]
+  induction s.toList with
+  | nil => rfl
+  | cons c cs ih =>
+    simp only [List.flatMap_cons, List.flatMap_append, List.map_append, ih, quoteChar1]
+
+theorem startsDoubleSlash_quote (s : String) (h : startsDoubleSlash s.toList = false) :
+    startsDoubleSlash (quote s).toList = false := by
+  rw [toList_quote_eq]
+  cases hs : s.toList with
+  | nil => rfl
+  | cons c1 r1 =>
+    rw [hs] at h
+    obtain ⟨x, rest, e1, hx⟩ := quoteChar1_head c1
+    simp only [List.flatMap_cons, e1, List.cons_append]
+    by_cases hx1 : x = '/'
+    · have hc1 := hx hx1
+      subst hc1
+      rw [quoteChar1_slash] at e1
+      cases e1
+      cases r1 with
+      | nil => rfl
+      | cons c2 r2 =>
+        obtain ⟨y, rest2, e2, hy⟩ := quoteChar1_head c2
+        simp only [List.flatMap_cons, e2, List.nil_append, List.cons_append]
+        by_cases hy1 : y = '/'
+        · have := hy hy1
+          subst this
+          simp [startsDoubleSlash] at h
+        · unfold startsDoubleSlash
+          split
+          · rename_i heq
+            simp only [List.cons.injEq] at heq
+            exact absurd heq.2.1 hy1
+          · rfl
+    · unfold startsDoubleSlash
+      split
+      · rename_i heq
+        simp only [List.cons.injEq] at heq
+        exact absurd heq.1 hx1
+      · rfl
+
+/-- `urlsplit(quote(s)).path == quote(s)` unless `s` starts with `//` (then the first segment is
+    read as an authority): nothing of a quoted path is cut off as query/fragment. -/
+theorem urlsplit_path_quote (s : String) (h : startsDoubleSlash s.toList = false) :
+    urlsplit_path (quote s) = quote s := by
+  rw [urlsplit_path, urlsplitPathChars_of_quoteChars _ (quote_safe_chars s) (startsDoubleSlash_quote s h),
+    String.ofList_toList]
+
+/-- and if `s` does start with `//`, the path is *not* the whole text: the href addresses
+    another authority -/
+example : urlsplit_path (quote "//user/calendars/") = "/calendars/" := by decide
+
 
 end Xandikos.Py.Url
